@@ -132,7 +132,7 @@ def gen_cases(tier, seed, shapes=None, per_shape=None):
     r = random.Random(seed * 7919 + 13)
     lens = [0, 1, 2, 3, 4, 5, 7, 8, 13, 21, 40]
     if per_shape is None:
-        per_shape = 24 if tier == "quick" else 160
+        per_shape = 24 if tier == "quick" else 500
     cases = []
     cid = 0
     for (src, ch) in gen_harness.all_shapes():
@@ -141,7 +141,7 @@ def gen_cases(tier, seed, shapes=None, per_shape=None):
         if shapes is not None and gen_harness.shape_name(src, ch) not in shapes:
             continue
         for k in range(per_shape):
-            ls = lens if k % 8 else [100, 257, 1000] if tier == "quick" else [100, 257, 1000, 4096]
+            ls = lens if k % 8 else [100, 257, 1000]
             cases.append(gen_case(r, cid, src, ch, ls))
             cid += 1
         if not ch:
